@@ -184,7 +184,7 @@ theorem value_length_step (a : Expr) (cur : J) (key : Option Part)
     RepV (unwrapSingle (evalExpr env cur key (.func "length".toList [a])))
       (Rfc.valueOf renv cur (.func "length".toList [a])) := by
   have hu := unpack_of_repV ih
-  simp only [evalExpr, evalArgs, Rfc.valueOf, if_true, hu]
+  simp only [evalExpr, applyFn, evalArgs, Rfc.valueOf, if_true, hu]
   cases h : Rfc.valueOf renv cur a with
   | none => simp [fnLength, unwrapSingle, RepV, optV]
   | some j => cases j <;> simp [fnLength, unwrapSingle, RepV, optV]
@@ -194,7 +194,7 @@ theorem value_count_step (a : Expr) (cur : J) (key : Option Part)
     RepV (unwrapSingle (evalExpr env cur key (.func "count".toList [a])))
       (Rfc.valueOf renv cur (.func "count".toList [a])) := by
   obtain ⟨ns, h1, h2⟩ := ih
-  simp only [evalExpr, evalArgs, Rfc.valueOf, if_true, h1, ne_cl, if_false]
+  simp only [evalExpr, applyFn, evalArgs, Rfc.valueOf, if_true, h1, ne_cl, if_false]
   simp [fnCount, unwrapSingle, RepV, representsAll_length h2]
 
 theorem value_value_step (a : Expr) (cur : J) (key : Option Part)
@@ -202,7 +202,7 @@ theorem value_value_step (a : Expr) (cur : J) (key : Option Part)
     RepV (unwrapSingle (evalExpr env cur key (.func "value".toList [a])))
       (Rfc.valueOf renv cur (.func "value".toList [a])) := by
   obtain ⟨ns, h1, h2⟩ := ih
-  simp only [evalExpr, evalArgs, Rfc.valueOf, if_true, h1, ne_vl, ne_vc, if_false]
+  simp only [evalExpr, applyFn, evalArgs, Rfc.valueOf, if_true, h1, ne_vl, ne_vc, if_false]
   generalize Rfc.nodesOfArg renv cur a = rs at h2
   match ns, rs, h2 with
   | [], [], _ => simp [fnValue, unwrapSingle, RepV]
@@ -225,7 +225,7 @@ theorem logical_match_step (a b : Expr) (cur : J) (key : Option Part)
       Rfc.logical renv cur (.func "match".toList [a, b]) := by
   have ha := unpack_of_repV iha
   have hb := unpack_of_repV ihb
-  simp only [evalExpr, evalArgs, Rfc.logical, if_true, ha, hb, ne_ml, ne_mc, ne_mv, if_false,
+  simp only [evalExpr, applyFn, evalArgs, Rfc.logical, if_true, ha, hb, ne_ml, ne_mc, ne_mv, if_false,
     true_or, hag.2.1]
   cases Rfc.valueOf renv cur a with
   | none => simp [fnMatch, optV]
@@ -242,7 +242,7 @@ theorem logical_search_step (a b : Expr) (cur : J) (key : Option Part)
       Rfc.logical renv cur (.func "search".toList [a, b]) := by
   have ha := unpack_of_repV iha
   have hb := unpack_of_repV ihb
-  simp only [evalExpr, evalArgs, Rfc.logical, if_true, ha, hb, ne_sl, ne_sc, ne_sv, ne_sm, if_false,
+  simp only [evalExpr, applyFn, evalArgs, Rfc.logical, if_true, ha, hb, ne_sl, ne_sc, ne_sv, ne_sm, if_false,
     or_true, hag.2.1]
   cases Rfc.valueOf renv cur a with
   | none => simp [fnMatch, optV]
